@@ -517,7 +517,13 @@ class ConcatRun:
         if len(arr) != total:
             return False
         # rows follow the order of the location index (start index of the first location array)
-        self.call("push", table.add_values_to_property_group, name, arr)
+        try:
+            self.call("push", table.add_values_to_property_group, name, arr)
+        except LibError as exc:
+            if exc.kind.startswith("KeyError"):
+                self.res.label("push-refused-name-in-use")  # documented refusal: label still present in the group
+                return False
+            raise
         order = self.push_order(ent, members)
         pos = 0
         for hole, t in order:
